@@ -21,6 +21,7 @@ type XMLGenConfig struct {
 	EmptyCDATA  bool
 	MixedText   bool
 	Entities    bool // the reader is given the custom entity ent = "EV"; some "EV" are written as &ent;
+	Pad         int  // > 0: a comment of about that many bytes near the start pushes later content across internal buffer boundaries
 	LangBias    bool // many xml:lang attributes (for lang() workloads)
 	Wide        bool // some elements get 17-60 children (size thresholds)
 }
@@ -38,6 +39,9 @@ func DrawXMLConfig(t *simkit.Tape) XMLGenConfig {
 	c.MixedText = t.Bool(2, 3)
 	c.EmptyCDATA = c.CDATA && t.Bool(1, 6)
 	c.Entities = t.Bool(1, 6)
+	if t.Bool(1, 20) {
+		c.Pad = []int{4000, 4080, 4090, 4096, 8180, 8192}[t.Draw(6)] - t.Draw(40)
+	}
 	c.LangBias = t.Bool(1, 5)
 	c.Wide = t.Bool(1, 8)
 	if c.XMLDecl {
@@ -120,6 +124,13 @@ func (g *xmlGen) text(max int, restrict bool) string {
 func GenXML(t *simkit.Tape, cfg XMLGenConfig) *Node {
 	g := &xmlGen{t: t, cfg: cfg}
 	root := &Node{Kind: KRoot}
+	if cfg.Pad > 0 {
+		fill := "p"
+		if cfg.NonASCII && cfg.Encoding == "" {
+			fill = "é" // multi-byte filler: the boundary may fall inside a character
+		}
+		root.Children = append(root.Children, &Node{Kind: KComment, Value: strings.Repeat(fill, cfg.Pad/len(fill))})
+	}
 	if cfg.Prolog {
 		root.Children = append(root.Children, g.misc(2)...)
 	}
